@@ -121,6 +121,18 @@ def random_superop(rng, d, kind):
         return gen.kraus_to_super(ks)
     if kind == "identity":
         return np.eye(d * d, dtype=complex)
+    if kind == "weak":
+        # a weak operation: within ~1e-5 of the identity (a tiny kick with a
+        # tiny loss) - not the identity, it acts (effect ~5e-6)
+        if rng.random() < 0.5:
+            # diagonal: a weak z-kick with a weak loss
+            u = np.diag(np.exp(-1j * 4e-6 * rng.uniform(-1, 1, size=d)))
+        else:
+            h = gen.rand_herm(rng, d)
+            h /= np.linalg.norm(h, 2)
+            from scipy.linalg import expm
+            u = expm(-1j * 4e-6 * h)
+        return (1.0 - 3e-6) * gen.unitary_super(u)
     if kind == "left":
         a = gen.cplx(rng, (d, d))
         return np.kron(a, np.eye(d))
